@@ -221,6 +221,9 @@ class OptimizationAbstract(ABC, Generic[T]):
                 raise ValueError("Invalid mode. Possible values are \"serial\", \"thread\" and \"process\"")
 
         self._task = task
+        self._current_cycle = 1
+        self._errors = []
+        self._error_diffs = []
 
         self.before_initialization()
 
